@@ -23,6 +23,14 @@ CHECKS = {
    note="Trusted base: enumerator in /verif/checks/c13.go; registry = what is linked into the harness (gorums, ordering, dev/zorums, well-known types, grpc status); end-to-end part uses the fakegrpc transport, which runs the real codec on every frame."),
  "C11": dict(cat="model_checking", ref="5.11", tech="stateless model checking of the real code: exhaustive event-history enumeration with observers after every event, compared with a reference model of the published (value, level, done) state; deviation-bounded schedule enumeration inside each event",
    text="Every history (replies, repeated stream replies, handler errors, stream ends, cancel, in every order, continuing after completion) of one correctable call over 4 (8 thorough) generated variants, n<=2, 5 level tables x done positions is executed on the instrumented library; after every event the script calls typed and raw Get, Done and 4 old + 4 new Watch levels and compares with the reference model (pointer identity of the published value, monotone levels, completion exactly when the model says, nothing changes afterwards, typed accessors never panic)."),
+ "C03": dict(cat="model_checking", ref="5.3", tech="stateless model checking of the real client and server code under a controlled scheduler; per-server handler start order compared with the issue order",
+   text="Every ordered pair of 11 call variants (and every triple of 7 representatives) issued by one client thread, or by two threads ordered by happens-before, with a straggler handler keeping earlier requests queued, send buffer {0,1,2} and transport window {1,3}; all schedules of senders, receivers and server streams within the deviation bound; oracle: on every server the handlers start in issue order, none twice, all targeted servers handle every call."),
+ "C04": dict(cat="model_checking", ref="5.4", tech="stateless model checking of the real server loop with puppet handlers; event-log invariant 'no unreleased earlier handler at any handler start' per connection",
+   text="Every triple of requests over 6 handler behaviours (return, gate, release early, release repeatedly, release from a helper goroutine, never release) on one connection, with and without a second client connection and a receive buffer, all gate orders and all schedules within the deviation bound; oracle on the per-connection event log: at every handler start no earlier handler of that connection is unreleased, replies of released handlers carry their own call's stamp, a never-releasing handler delays only its own connection."),
+ "C05": dict(cat="model_checking", ref="5.5", tech="stateless model checking of concurrent callers on shared nodes with identity-stamped replies delivered in every order (also after return / cancel)",
+   text="Two or three concurrent client threads on overlapping configurations of one manager, every ordered pair over 6 call kinds, with cancel events; every handler releases early and is gated so the script can deliver each reply at any position of the history, including after its call returned or was cancelled; oracle: every reply observed by a quorum function or returned carries the observer's token and the node id it is filed under, at most once per node, nothing after return, one message id per call."),
+ "C06": dict(cat="model_checking", ref="5.6", tech="stateless model checking with exhaustive enumeration of per-node skip subsets and node states; payload equality per server and untimed 'returns without waiting' oracle at quiescence",
+   text="Every skip subset of the per-node function for n<=3 on 9 per-node call variants and 6 plain ones with thresholds targeted / targeted+1: each server must receive exactly f(request, i) once, skipped servers nothing, and completion and the Incomplete counts range over targeted nodes only. One-way calls x send-waiting on/off x {idle, blocked handlers, endpoints down, window full}: the call has returned at the first quiescent point with every handler still running, and with no-send-waiting even when its own message cannot be written."),
 }
 
 NOT_YET = {}
